@@ -74,6 +74,7 @@ pub fn main() -> i32 {
                 .unwrap_or(4)
                 .min(16)
         });
+    cleanup_stale_scratch();
     let ctx = Ctx {
         property: property.clone(),
         tier,
@@ -187,7 +188,7 @@ fn c04(ctx: &Ctx) -> i32 {
         let pr = PropRun {
             ctx,
             engine: "BB-large",
-            rule: "shape family {chain, fan-in, fan-out, k-ary tree, layered DAG, many roots} x size log-uniform in 2..=2000 (quick: ..=1000), trivial scripts, real binary; exit 0 and exactly one start/finish per closure target; hang = quiescence rule; non-trivial = >= 33 dependents/dependencies on one node (more than half a queue), or depth >= 50, or >= 33 roots; distinct = shape x floor(log2 size)",
+            rule: "shape family {chain, fan-in, fan-out, k-ary tree, layered DAG, many roots, short chain with command inputs printing up to 200 KB} x size log-uniform in 2..=2000 (quick: ..=1000), trivial scripts, real binary; exit 0 and exactly one start/finish per closure target; hang = quiescence rule (also: zinoma and all its trivial children asleep without CPU progress over 4 samples); non-trivial = > 64 KiB of command output, >= 33 dependents/dependencies on one node (more than half a queue), or depth >= 50, or >= 33 roots; distinct = shape x floor(log2 size)",
             total_cases: ctx.tier.pick(64, 600),
             threads: ctx.tier.pick(8, 12).min(ctx.threads),
             max_shrink_iters: 12,
@@ -436,6 +437,8 @@ fn c01(ctx: &Ctx) -> i32 {
     let rule = "generated graph x requested subset x watch on/off x failures x schedule with file-change notices; at every start: every dependency (aggregates expanded) finished / started before, and latest delivered word of every direct dependency per kind is Ok; aggregates only say Ok while all their dependencies' latest word is Ok; non-trivial = >= 2 dependencies, or dependency through a non-empty aggregate, or (watch) restarted / a dependency notice between two starts; distinct = shape classes x feature set x number of starts";
     sim_check(ctx, &mut report, params, ctx.tier.pick(200_000, 3_000_000), oracle_c01, rule, 1);
     bb_replays(ctx, &mut report);
+    bb_part(ctx, &mut report, "c01", BbParams { max_n: 8, failures: true, services: true, rendezvous: false }, ctx.tier.pick(64, 400),
+        "same, with dependencies whose script exits non-zero or whose shell is killed by a signal: a dependency that did not finish successfully (no finish line) must never be followed by a start of its dependents", 301);
     bb_part(ctx, &mut report, "c01", BbParams { max_n: 8, failures: false, services: true, rendezvous: false }, ctx.tier.pick(96, 600),
         "real binary on generated graphs with scripts sleeping 0-40 ms; in the trace every start of T is preceded by the finish line of each build dependency (aggregates expanded) and each service dependency was forked no later than T (kernel start ticks); non-trivial = >= 2 dependencies or a dependency through an aggregate", 101);
     report.finish()
@@ -933,7 +936,7 @@ fn inc_part(ctx: &Ctx, report: &mut Report, which: &'static str, neutral: bool, 
         rule,
         total_cases: cases,
         threads: ctx.threads,
-        max_shrink_iters: 1500,
+        max_shrink_iters: 200,
         stream,
     };
     let (part, failures) = run_prop(&pr, || inc_case(neutral), |c: &IncCase| eval_inc(c, which));
@@ -1083,7 +1086,7 @@ fn c16(ctx: &Ctx) -> i32 {
             ctx,
             engine: "INC",
             rule: "real TargetWatcher (inotify) over a scratch tree: 1-2 extension groups (incl. filters that match temporary-file names: rs~, swp, swx) x 1-12 operations beneath the watched directories (create, write, append, rename within / out / in, delete, mkdir + file inside, write under .zinoma) on names from 12 classes (relevant, other extension, *~, .*.swp, .*.swx, non-UTF-8, 200 characters, newline, name == extension); relevant => >= 1 invalidation before the next barrier, irrelevant => none; watcher thread panics recorded; survival probe at the end; non-trivial = an irrelevant operation followed by a relevant one, or an odd name; distinct = operation/name class set x filters",
-            total_cases: ctx.tier.pick(4000, 60_000),
+            total_cases: ctx.tier.pick(4000, 30_000),
             threads: 8.min(ctx.threads),
             max_shrink_iters: 300,
             stream: 116,
@@ -1160,5 +1163,30 @@ fn cfg_bb_part(ctx: &Ctx, report: &mut Report, which: &'static str, defects: u8,
     report.add(part);
     for f in failures {
         report.fail(f);
+    }
+}
+
+/// Scratch directories of earlier runs whose process no longer exists (killed runs).
+fn cleanup_stale_scratch() {
+    let base = super::bb::scratch_base();
+    if let Ok(rd) = std::fs::read_dir(&base) {
+        for e in rd.flatten() {
+            let name = e.file_name().to_string_lossy().to_string();
+            let rest = if let Some(r) = name.strip_prefix("zvfuzzrun") {
+                r
+            } else if let Some(r) = name.strip_prefix("zvfuzz") {
+                r
+            } else if let Some(r) = name.strip_prefix("zv") {
+                r
+            } else {
+                continue;
+            };
+            let pid: String = rest.chars().take_while(|c| c.is_ascii_digit()).collect();
+            if let Ok(pid) = pid.parse::<i32>() {
+                if !std::path::Path::new(&format!("/proc/{}", pid)).exists() {
+                    let _ = std::fs::remove_dir_all(e.path());
+                }
+            }
+        }
     }
 }
